@@ -4,7 +4,7 @@ CONSTANTS
   Order <- Order2
   Collide = FALSE
   Hooks <- Hooks_life
-  Flags <- Flags_none
+  Flags <- Flags_denyctxA
   CtxPersist = FALSE
   Topics = {"t1"}
   Pats = {"t1"}
